@@ -27,12 +27,12 @@ func moqFunc(prog *load.Program, pkg, name string) (*cfgx.Func, *types.Func, *ty
 
 // NameAlloc resolves the name-allocation roles of the registry.
 type NameAlloc struct {
-	AddVar     *cfgx.Func
-	AddVarFn   *types.Func
-	Info       *types.Info
-	VarLit     *ast.CompositeLit // the Var literal built by AddVar
-	NameVar    *types.Var        // the local that becomes Var.Name
-	VarNameFn  *types.Func       // the function that proposes the name
+	AddVar      *cfgx.Func
+	AddVarFn    *types.Func
+	Info        *types.Info
+	VarLit      *ast.CompositeLit // the Var literal built by AddVar
+	NameVar     *types.Var        // the local that becomes Var.Name
+	VarNameFn   *types.Func       // the function that proposes the name
 	VarNameCall *ast.CallExpr
 }
 
@@ -111,7 +111,9 @@ func CheckAddVar(run *core.Run, prog *load.Program) *NameAlloc {
 		run.Check("G-ADDVAR/dominates", key, pos, !r.Passed(nodeHolding(f, lit)), "a Var can be constructed on a path that does not "+what+" — for which parameters the test runs must not depend on anything (e.g. on the suffix, i.e. on being a result)")
 	}
 	callee := func(name string) func(cfgx.Site) bool {
-		return func(s cfgx.Site) bool { return s.Callee != nil && load.FuncName(s.Callee) == name && prog.IsMoqPkg(s.Callee.Pkg()) }
+		return func(s cfgx.Site) bool {
+			return s.Callee != nil && load.FuncName(s.Callee) == name && prog.IsMoqPkg(s.Callee.Pkg())
+		}
 	}
 	must("import-discovery", "discover the imports of the variable's type (populateImports)", callee("MethodScope.populateImports"))
 	must("import-var-conflicts", "rename earlier variables that equal a newly imported qualifier (resolveImportVarConflicts)", callee("MethodScope.resolveImportVarConflicts"))
